@@ -28,7 +28,7 @@ struct Plan {
     uint64_t lat_lo = 20000, lat_hi = 200000, cost_lo = 200, cost_hi = 3000, tend = 100000000ULL, quiet_t = 0, drain = 60000000ULL;
     size_t qcap = 64;
     int64_t skew[4] = {0, 0, 0, 0};
-    bool stdin_eof = false;
+    bool stdin_eof = false, o0 = false, ethpad = false;
     std::vector<CanW> can;
     std::vector<StdinW> in;
     std::vector<Mut> mut;
